@@ -157,6 +157,11 @@ inductive Op (α : Type)
   | clone (c : Nat)
   deriving Repr, Inhabited
 
+/-- the existing list an operation is called on to change it (`none`: the operation only reads and creates) -/
+def Op.tgt : Op α → Option Nat
+  | .add c _ | .insert c _ _ | .replace c _ _ | .delete c _ | .pop c | .clear c | .reverse c | .sort c => some c
+  | _ => none
+
 /-- `sorted` stands for `sort.Ints/Strings/Float64s` -/
 def step (cfg : Cfg α) (sorted : List α → List α) (σ : SHeap α) : Op α → SHeap α × Outcome
   | .newList vs =>
